@@ -907,7 +907,8 @@ static void modeDist(int argc, char** argv, Rng& rng)
     {
       auto in = simpleFamily(rng, rng.below(6), n);
       c.inner.push_back({"dist", in->getName()});
-      c.d.reset(new InvariantMixedDiscreteDistribution(std::move(in), gridVal(rng, 0.125, 0.75)));
+      // the description language has no syntax for the invariant point: its reader places it at 1e-6
+      c.d.reset(new InvariantMixedDiscreteDistribution(std::move(in), gridVal(rng, 0.125, 0.75), 0.000001));
     }
     else
     {
